@@ -417,16 +417,26 @@ func isASCII(s string) bool {
 	return true
 }
 
+// NewWatcherRetry creates a Watcher, backing off while the per-user inotify
+// instance limit (shared with everything else on the machine) is exhausted.
+func NewWatcherRetry(capacity int) (x *fsnotify.Watcher, err error) {
+	for try := 0; ; try++ {
+		if capacity < 0 {
+			x, err = fsnotify.NewWatcher()
+		} else {
+			x, err = fsnotify.NewBufferedWatcher(uint(capacity))
+		}
+		if err == nil || !resourceErr(err) || try > 900 {
+			return
+		}
+		time.Sleep(100 * time.Millisecond)
+	}
+}
+
 // other Watchers (C14) -------------------------------------------------------
 
 func (w *World) XNew(capacity int) {
-	var x *fsnotify.Watcher
-	var err error
-	if capacity < 0 {
-		x, err = fsnotify.NewWatcher()
-	} else {
-		x, err = fsnotify.NewBufferedWatcher(uint(capacity))
-	}
+	x, err := NewWatcherRetry(capacity)
 	if err != nil {
 		inconclusive("creating another Watcher: %v", err)
 	}
@@ -480,6 +490,30 @@ func (w *World) SyncAbsorb() {
 	for len(w.W.Events) < len(exp) {
 		time.Sleep(50 * time.Microsecond)
 		if time.Now().After(deadline) {
+			// definitive when nothing is left in the kernel queue and this
+			// Watcher's buffer stays short while every reader sleeps in poll
+			q1, _ := Fionread(w.Wfd)
+			l1 := len(w.W.Events)
+			time.Sleep(time.Second)
+			q2, _ := Fionread(w.Wfd)
+			busy := false
+			for _, g := range FsnotifyGoroutines() {
+				if strings.Contains(g, "readEvents") && !strings.Contains(g, "IO wait") {
+					busy = true
+				}
+			}
+			if q1 == 0 && q2 == 0 && !busy && len(w.W.Events) == l1 && l1 < len(exp) {
+				var got []Ev
+				for i := 0; i < l1; i++ {
+					select {
+					case ev := <-w.W.Events:
+						w.take(ev, &got, "")
+					default:
+					}
+				}
+				w.find(FMissing, "a Watcher with capacity %d and no consumer absorbed %d of %d events; the kernel queue is empty and the reader idle\n  expected:  %v\n  delivered: %v", cap(w.W.Events), l1, len(exp), exp, got)
+				return
+			}
 			w.wedge(fmt.Sprintf("buffer of capacity %d holds %d events, %d expected, nobody receiving", cap(w.W.Events), len(w.W.Events), len(exp)))
 			return
 		}
@@ -615,43 +649,54 @@ func (w *World) Overflow(dir string, n int) {
 	w.M.Feed(w.Sh.Drain())
 	w.M.Overflow = false
 	w.pending, w.pendOpt = nil, nil
-	// consume until the kernel queue is empty
-	var sink []Ev
+	var got []Ev
 	deadline := time.Now().Add(2 * SyncTimeout)
-	for {
-		q, _ := Fionread(w.Wfd)
-		if q == 0 && len(w.W.Events) == 0 {
-			break
-		}
-		select {
-		case ev, ok := <-w.W.Events:
-			if !ok {
-				w.find(FClosed, "Events closed during overflow handling")
-				return
+	recvSome := func(until func() bool) bool {
+		for !until() {
+			select {
+			case ev, ok := <-w.W.Events:
+				if !ok {
+					w.find(FClosed, "Events closed during overflow handling")
+					return false
+				}
+				w.take(ev, &got, "")
+			case err, ok := <-w.W.Errors:
+				if ok {
+					w.gotError(err)
+				}
+			case <-time.After(time.Millisecond):
 			}
-			w.take(ev, &sink, "")
-			sink = sink[:0]
-		case err, ok := <-w.W.Errors:
-			if ok {
-				w.gotError(err)
+			if time.Now().After(deadline) {
+				w.wedge("kernel queue not drained after an overflow burst")
+				return false
 			}
-		case <-time.After(time.Millisecond):
 		}
-		if time.Now().After(deadline) {
-			w.wedge("kernel queue not drained after an overflow burst")
-			return
-		}
+		return true
+	}
+	// phase 2: let the reader take one buffer-full out of the kernel, so that
+	// there is room again, then make changes: the kernel queues them BEHIND the
+	// overflow marker, and they must all be delivered
+	q0, _ := Fionread(w.Wfd)
+	if !recvSome(func() bool { q, _ := Fionread(w.Wfd); return q < q0 || q == 0 }) {
+		return
 	}
 	w.plugged = false
-	w.opsInSeg = 0
-	w.segBurst = false
-	// everything still in flight precedes a fresh sentinel
-	save := w.pending
-	w.pending, w.pendOpt = nil, nil
-	w.lossy = true
-	w.Sync(nil)
-	w.lossy = false
-	w.pending = save
+	for i := 0; i < 6; i++ {
+		p := P(filepath.Join(dir, fmt.Sprintf("after-ovf-%d-%d", w.sentN, i)))
+		w.FsOp(Step{K: KCreate, P: p})
+		if i%2 == 0 {
+			w.FsOp(Step{K: KWrite, P: p, N: 1})
+		}
+	}
+	w.Feat["ops-queued-behind-the-overflow-marker"] += 9
+	// phase 3: consume until the kernel queue is empty
+	if !recvSome(func() bool { q, _ := Fionread(w.Wfd); return q == 0 && len(w.W.Events) == 0 }) {
+		return
+	}
+	w.segBurst = true
+	// everything still in flight precedes a fresh sentinel; what was queued
+	// behind the marker is compared exactly
+	w.Sync(got)
 	w.overflowing = false
 	if w.Feat["overflow-errors-received"] == 0 {
 		w.find(FErrors, "a burst of %d notifications overflowed the kernel queue (limit %d) but ErrEventOverflow was not received on Errors", n, MaxQueuedEvents())
@@ -677,6 +722,11 @@ func MaxQueuedEvents() int {
 func (w *World) take(ev fsnotify.Event, got *[]Ev, s string) bool {
 	if strings.HasPrefix(ev.Name, w.SentDir+"/") {
 		return s != "" && ev.Name == s && ev.Has(fsnotify.Create)
+	}
+	if w.overflowing {
+		if b := filepath.Base(ev.Name); b == "ovf-a" || b == "ovf-b" {
+			return false // filler of an overflow burst: an unknown part of it was dropped by the kernel
+		}
 	}
 	w.Delivered++
 	if w.EvDirs == nil {
@@ -995,15 +1045,55 @@ func resourceErr(err error) bool {
 	return errors.Is(err, unix.ENOSPC) || errors.Is(err, unix.ENOMEM) || errors.Is(err, unix.EMFILE) || errors.Is(err, unix.ENFILE)
 }
 
+// MaskOfOps is the documented subscription table (portable operations).
+func MaskOfOps(op fsnotify.Op) uint32 {
+	var m uint32
+	if op&fsnotify.Create != 0 {
+		m |= unix.IN_CREATE
+	}
+	if op&fsnotify.Write != 0 {
+		m |= unix.IN_MODIFY
+	}
+	if op&fsnotify.Remove != 0 {
+		m |= unix.IN_DELETE | unix.IN_DELETE_SELF
+	}
+	if op&fsnotify.Rename != 0 {
+		m |= unix.IN_MOVED_FROM | unix.IN_MOVED_TO | unix.IN_MOVE_SELF
+	}
+	if op&fsnotify.Chmod != 0 {
+		m |= unix.IN_ATTRIB
+	}
+	return m
+}
+
 // Add performs Watcher.Add(p) and the model's Add.
-func (w *World) Add(p string) {
+func (w *World) Add(p string) { w.AddOps(p, 0) }
+
+// AddOps is Add restricted to a set of operations (0 = the default set, plain
+// Add). Adding a watched path again can only widen what is reported: the
+// kernel mask is the union of what was asked for so far.
+func (w *World) AddOps(p string, ops fsnotify.Op) {
 	c := filepath.Clean(p)
 	before := map[int]bool{}
 	for _, x := range w.M.Live {
 		before[x.Swd] = true
 	}
-	swd, serr := w.Sh.Add(c, DefaultMask)
-	werr, panicked := w.call(fmt.Sprintf("Add(%q)", p), func() error { return w.W.Add(p) })
+	mask := uint32(DefaultMask)
+	if ops != 0 {
+		mask = MaskOfOps(ops)
+		w.Feat["add-with-operation-subset"]++
+	}
+	// is the object already watched? then the request is added to its mask
+	swd, serr := w.Sh.Add(c, mask|unix.IN_MASK_ADD)
+	if serr == nil && !before[swd] {
+		// new watch: IN_MASK_ADD made no difference
+	}
+	werr, panicked := w.call(fmt.Sprintf("Add(%q, ops=%s)", p, ops), func() error {
+		if ops != 0 {
+			return w.W.AddWith(p, fsnotify.VerifWithOps(ops))
+		}
+		return w.W.Add(p)
+	})
 	w.StepErrs = append(w.StepErrs, errstr(werr))
 	if panicked {
 		return
@@ -1148,6 +1238,77 @@ func (w *World) RemoveNow(p string) {
 	w.Remove(p)
 }
 
+// AddNow calls Add while events may still be pending. If the path is listed
+// and now names another file the Watcher re-points its watch at once, and what
+// is still undelivered for the old file may be dropped: pending events under
+// that path become optional.
+func (w *World) AddNow(p string) {
+	c := filepath.Clean(p)
+	for i, e := range w.pending {
+		if e.Name == c || strings.HasPrefix(e.Name, c+"/") {
+			w.pendOpt[i] = true
+		}
+	}
+	w.Feat["add-inside-burst"]++
+	w.Add(p)
+}
+
+// Recv receives exactly n events (a consumer that takes a few events and then
+// stalls), but never more than the model expects to be pending, so that it
+// cannot block for good.
+func (w *World) Recv(n int, got *[]Ev) {
+	mandatory := 0
+	for i := range w.pending {
+		if !w.pendOpt[i] {
+			mandatory++
+		}
+	}
+	// events already received in this segment count against what is pending;
+	// kernel merging may have reduced the number further: stay conservative
+	avail := mandatory - len(*got)
+	if w.segBurst {
+		avail = 0
+		seen := map[string]bool{}
+		for i, e := range w.pending {
+			if !w.pendOpt[i] && !seen[evKey(e)] {
+				seen[evKey(e)] = true
+				avail++
+			}
+		}
+		avail -= len(*got)
+	}
+	if n > avail {
+		n = avail
+	}
+	timer := time.NewTimer(SyncTimeout)
+	defer timer.Stop()
+	for i := 0; i < n; i++ {
+		select {
+		case ev, ok := <-w.W.Events:
+			if !ok {
+				return
+			}
+			if strings.HasPrefix(ev.Name, w.SentDir+"/") {
+				i--
+				continue
+			}
+			w.take(ev, got, "")
+		case err, ok := <-w.W.Errors:
+			if ok {
+				w.gotError(err)
+			}
+			i--
+		case <-timer.C:
+			w.wedge(fmt.Sprintf("consumer waiting for event %d of %d that the model says are pending", i+1, n))
+			return
+		}
+	}
+	if n > 0 {
+		w.Feat["blocking-partial-receives"]++
+		w.plugged = false
+	}
+}
+
 // List compares WatchList with the model.
 func (w *World) List() {
 	var got []string
@@ -1273,6 +1434,19 @@ func Run(c *Case) (w *World) {
 			synced = false
 		case s.K == KRemoveNow:
 			w.RemoveNow(string(s.P))
+		case s.K == KAddNow:
+			w.AddNow(string(s.P))
+		case s.K == KPause:
+			w.StepErrs = append(w.StepErrs, "")
+			if !synced {
+				time.Sleep(time.Duration(s.N) * time.Millisecond)
+				w.Feat["consumer-pauses-with-events-pending"]++
+			}
+		case s.K == KRecv:
+			w.StepErrs = append(w.StepErrs, "")
+			if !w.absorbing {
+				w.Recv(s.N, &polled)
+			}
 		case s.K == KPoll:
 			w.StepErrs = append(w.StepErrs, "")
 			if !w.plugged && !w.absorbing {
@@ -1301,7 +1475,7 @@ func Run(c *Case) (w *World) {
 			case KRRemove:
 				w.RRemove(string(s.P))
 			case KAdd:
-				w.Add(string(s.P))
+				w.AddOps(string(s.P), fsnotify.Op(s.N))
 			case KRemove:
 				w.Remove(string(s.P))
 			case KList:
